@@ -36,33 +36,37 @@ theorem erel2_of_erel {σ α : Type} {R : σ → σ → Prop} {x y : Except Pani
   split <;> simp_all
 
 /-- `rootRouter.update` preserves the relation (whatever round it is made for) -/
-theorem Root.upd_rel (P : Params) (pl : PlayerF) {l₁ l₂ : List (Nat × RoundR)} (h : E pl.round l₁ = E pl.round l₂) (r : Nat) :
-    E pl.round (Root.upd P pl ⟨l₁⟩ r).rounds = E pl.round (Root.upd P pl ⟨l₂⟩ r).rounds := by
-  rw [Root.upd_E P pl l₁ r, Root.upd_E P pl l₂ r, h]
+theorem Root.upd_rel (P : Params) (pl : PlayerF) {ra rb : Root} (h : E pl.round ra.rounds = E pl.round rb.rounds) (r : Nat) :
+    E pl.round (Root.upd P pl ra r).rounds = E pl.round (Root.upd P pl rb r).rounds := by
+  have e1 := Root.upd_E P pl ra.rounds r
+  have e2 := Root.upd_E P pl rb.rounds r
+  rw [show (⟨ra.rounds⟩ : Root) = ra from rfl] at e1
+  rw [show (⟨rb.rounds⟩ : Root) = rb from rfl] at e2
+  rw [e1, e2, h]
 
 /-- a round-level machine that respects `RRel`, run through `rootRouter.dispatch` for a round the erasure keeps -/
-theorem atRound_rel2 {α : Type} {S : α → α → Prop} (P : Params) (pl : PlayerF) {l₁ l₂ : List (Nat × RoundR)}
-    (h : E pl.round l₁ = E pl.round l₂) {r : Nat} (hr : r ≥ pl.round) (p : Nat)
+theorem atRound_rel2 {α : Type} {S : α → α → Prop} (P : Params) (pl : PlayerF) {ra rb : Root}
+    (h : E pl.round ra.rounds = E pl.round rb.rounds) {r : Nat} (hr : r ≥ pl.round) (p : Nat)
     {f : RoundR → Except Panic (RoundR × α)} (hf : ∀ x y, RRel x y → ERel2 RRel S (f x) (f y)) :
     ERel2 (fun a b : Root => E pl.round a.rounds = E pl.round b.rounds) S
-      (Root.atRound P pl ⟨l₁⟩ r p f) (Root.atRound P pl ⟨l₂⟩ r p f) := by
+      (Root.atRound P pl ra r p f) (Root.atRound P pl rb r p f) := by
   unfold Root.atRound
   simp only []
   have hU := Root.upd_rel P pl h r
-  have hg : (aget (Root.upd P pl ⟨l₁⟩ r).rounds r).map RoundR.persist = (aget (Root.upd P pl ⟨l₂⟩ r).rounds r).map RoundR.persist := by
-    have e1 := aget_E pl.round (Root.upd P pl ⟨l₁⟩ r).rounds r
-    have e2 := aget_E pl.round (Root.upd P pl ⟨l₂⟩ r).rounds r
+  have hg : (aget (Root.upd P pl ra r).rounds r).map RoundR.persist = (aget (Root.upd P pl rb r).rounds r).map RoundR.persist := by
+    have e1 := aget_E pl.round (Root.upd P pl ra r).rounds r
+    have e2 := aget_E pl.round (Root.upd P pl rb r).rounds r
     rw [if_pos hr] at e1 e2
     rw [← e1, ← e2, hU]
-  cases ha : aget (Root.upd P pl ⟨l₁⟩ r).rounds r with
+  cases ha : aget (Root.upd P pl ra r).rounds r with
   | none =>
     rw [ha] at hg
-    cases hb : aget (Root.upd P pl ⟨l₂⟩ r).rounds r with
+    cases hb : aget (Root.upd P pl rb r).rounds r with
     | none => trivial
     | some y => rw [hb] at hg; cases hg
   | some x =>
     rw [ha] at hg
-    cases hb : aget (Root.upd P pl ⟨l₂⟩ r).rounds r with
+    cases hb : aget (Root.upd P pl rb r).rounds r with
     | none => rw [hb] at hg; cases hg
     | some y =>
       rw [hb] at hg
@@ -80,10 +84,8 @@ theorem liftRound_rel2 {α : Type} {S : α → α → Prop} (P : Params) {τ σ 
     (p : Nat) {f : RoundR → Except Panic (RoundR × α)} (hf : ∀ x y, RRel x y → ERel2 RRel S (f x) (f y)) :
     ERel2 SRel S (liftRoot τ (τ.root.atRound P σ.pl r p f)) (liftRoot σ (σ.root.atRound P σ.pl r p f)) := by
   rcases (atRound_rel2 P σ.pl h.rounds hr p hf).cases with ⟨e, e', h1, h2⟩ | ⟨a, b, u, w, h1, h2, hab, huw⟩
-  · show ERel2 SRel S (liftRoot τ (Root.atRound P σ.pl ⟨τ.root.rounds⟩ r p f)) (liftRoot σ (Root.atRound P σ.pl ⟨σ.root.rounds⟩ r p f))
-    rw [h1, h2]; trivial
-  · show ERel2 SRel S (liftRoot τ (Root.atRound P σ.pl ⟨τ.root.rounds⟩ r p f)) (liftRoot σ (Root.atRound P σ.pl ⟨σ.root.rounds⟩ r p f))
-    rw [h1, h2]
+  · rw [h1, h2]; trivial
+  · rw [h1, h2]
     exact ⟨SRel.mk h.pl hab, huw⟩
 
 theorem liftRound_rel {α : Type} (P : Params) {τ σ : State} (h : SRel τ σ) {r : Nat} (hr : r ≥ σ.pl.round)
@@ -137,7 +139,7 @@ theorem freezeProposal_rel (P : Params) {τ σ : State} (h : SRel τ σ) : ERel 
 theorem SRel.updRoot (P : Params) {τ σ : State} (h : SRel τ σ) (rt : Nat) :
     SRel { τ with root := τ.root.upd P τ.pl rt } { σ with root := σ.root.upd P σ.pl rt } := by
   refine SRel.mk h.pl ?_
-  show E σ.pl.round (Root.upd P τ.pl ⟨τ.root.rounds⟩ rt).rounds = E σ.pl.round (Root.upd P σ.pl ⟨σ.root.rounds⟩ rt).rounds
+  show E σ.pl.round (Root.upd P τ.pl τ.root rt).rounds = E σ.pl.round (Root.upd P σ.pl σ.root rt).rounds
   rw [h.pl]
   exact Root.upd_rel P σ.pl h.rounds rt
 
@@ -211,7 +213,7 @@ theorem credHistoryTouch_rel (P : Params) {τ σ : State} (h : SRel τ σ) :
     have hr : σ.pl.round - P.lag ≥ σ.pl.round := by omega
     have := atRound_rel2 (S := Eq) P σ.pl h.rounds hr 0 (f := fun rr => rr.atPeriod σ.pl 0 0 (fun pr => .ok (pr, ())))
       (fun x y hxy => erel2_of_erel (atPeriod_rel hxy σ.pl 0 0 (fun u v huv => ERel.ok huv)))
-    rw [show (⟨τ.root.rounds⟩ : Root) = τ.root from rfl, show (⟨σ.root.rounds⟩ : Root) = σ.root from rfl, ht, hs] at this
+    rw [ht, hs] at this
     exact Or.inr ⟨_, _, rfl, rfl, SRel.mk rfl this.1⟩
   · have hlt : σ.pl.round - P.lag < σ.pl.round := by omega
     refine Or.inr ⟨_, _, rfl, rfl, SRel.mk rfl ?_⟩
